@@ -3,11 +3,13 @@ use std::path::Path;
 
 pub mod c01;
 pub mod c02;
+pub mod smoke;
 
 pub fn run(id: &str, tier: Tier) -> i32 {
     match id {
         "C01" => c01::run(tier),
         "C02" => c02::run(tier),
+        "SMOKE" => smoke::run(),
         _ => {
             eprintln!("harness error: no check for {id}");
             2
